@@ -86,7 +86,11 @@ def run_one(req, results):
                 r = cls('r').execute(**kwargs)
         out = {'ok': True, 'res': dump(r), 'alias': [r is h._result for h in holders]}
     except Exception as e:
-        out = {'ok': False, 'exc': type(e).__name__, 'mpilot': isinstance(e, MPilotError), 'msg': str(e)[:300]}
+        try:
+            msg = str(e)[:300]
+        except Exception as e2:     # an error class whose __str__ itself fails (reported by C13, not here)
+            msg = '<str() failed: %s>' % type(e2).__name__
+        out = {'ok': False, 'exc': type(e).__name__, 'mpilot': isinstance(e, MPilotError), 'msg': msg}
         inner = getattr(e, 'exc', None)
         if inner is not None and isinstance(inner, Exception):
             out['inner'] = type(inner).__name__
